@@ -809,4 +809,95 @@ theorem cubic_polar_normal_equations :
         tcoef Gen.GeoidC.c3s j 3 + tcoef Gen.GeoidC.c3s j 7 == 0 && tcoef Gen.GeoidC.c3s j 6 == 0) = true := by
   refine ⟨by decide +kernel, by decide +kernel, by decide +kernel, by decide +kernel⟩
 
+/-! ### the `int` index arithmetic cannot overflow on an accepted raster (finding F73, repaired by the size limit 2^30) -/
+
+/-- the range of the C++ type `int` -/
+def IntRange (x : Int) : Prop := -(2:Int) ^ 31 ≤ x ∧ x ≤ 2 ^ 31 - 1
+
+theorem intsOK_iff (l : List Int) : intsOK l = true ↔ ∀ x ∈ l, IntRange x := by
+  unfold intsOK IntRange
+  simp [List.all_eq_true]
+
+/-- `Geoid::height`, from the two floors to the stencil arguments -/
+theorem heightInts_in_range (w h flx fly : Int) (hw : 2 ≤ w ∧ w ≤ 2 ^ 30) (hh : 3 ≤ h ∧ h ≤ 2 ^ 30)
+    (hx : -w ≤ flx ∧ flx ≤ w) (hy : -h ≤ fly ∧ fly ≤ h) : ∀ x ∈ heightInts w h flx fly, IntRange x := by
+  simp only [heightInts, List.forall_mem_cons, List.not_mem_nil, IsEmpty.forall_iff, implies_true, and_true, IntRange,
+    Int.min_def, Int.max_def]
+  refine ⟨?_, ?_, ?_, ?_, ?_, ?_, ?_, ?_, ?_, ?_, ?_, ?_, ?_, ?_, ?_, ?_, ?_, ?_, ?_, ?_⟩ <;> (first | omega | (split_ifs <;> omega))
+
+/-- `Geoid::rawval` for every stencil argument (`−1 ≤ ix0 ≤ w + 1`, `−1 ≤ iy ≤ h`) and every cache window of `CacheArea` -/
+theorem rawvalInts_in_range (w h xoff yoff xs ys ix0 iy : Int) (hw : 2 ≤ w ∧ w ≤ 2 ^ 30) (hh : 3 ≤ h ∧ h ≤ 2 ^ 30)
+    (hwin : 0 ≤ xoff ∧ xoff < w ∧ 0 < xs ∧ xs ≤ w ∧ -1 ≤ yoff ∧ 0 < ys ∧ yoff + ys ≤ h + 1)
+    (hx : -1 ≤ ix0 ∧ ix0 ≤ w + 1) (hy : -1 ≤ iy ∧ iy ≤ h) : ∀ x ∈ rawvalInts w h xoff yoff xs ys ix0 iy, IntRange x := by
+  simp only [rawvalInts, List.forall_mem_cons, List.not_mem_nil, IsEmpty.forall_iff, implies_true, and_true, IntRange]
+  refine ⟨?_, ?_, ?_, ?_, ?_, ?_, ?_, ?_, ?_, ?_, ?_, ?_, ?_, ?_, ?_⟩ <;> (first | omega | (split_ifs <;> omega))
+
+/-- `Geoid::CacheArea`, from the four floors to the window (the last four entries are the results of the executed `windowOfIdx`) -/
+theorem cacheAreaInts_in_range (w h : Int) (cubic : Bool) (iw0 ie0 in0 is0 : Int) (hw : 2 ≤ w ∧ w ≤ 2 ^ 30) (hev : w % 2 = 0) (hh : 3 ≤ h ∧ h ≤ 2 ^ 30)
+    (h1 : iw0 ≤ ie0) (h2 : in0 ≤ is0) (h3 : -w ≤ iw0 ∧ iw0 ≤ w) (h4 : ie0 ≤ 3 * w / 2 + 1) (h5 : ie0 - iw0 ≤ 3 * w / 2 + 2)
+    (h6 : -h ≤ in0 ∧ in0 ≤ h) (h7 : -h ≤ is0 ∧ is0 ≤ h) (h8 : 4 ≤ w → -(w - 1) ≤ iw0 ∧ iw0 ≤ w - 1) :
+    ∀ x ∈ cacheAreaInts w h cubic iw0 ie0 in0 is0, IntRange x := by
+  have key := windowOfIdx_ok w h cubic iw0 ie0 in0 is0 hw.1 hev hh.1 h1 h2 h8
+  simp only [cacheAreaInts, List.forall_mem_cons, List.not_mem_nil, IsEmpty.forall_iff, implies_true, and_true, IntRange,
+    Int.min_def, Int.max_def]
+  generalize windowOfIdx w h cubic iw0 ie0 in0 is0 = p at key ⊢
+  cases cubic <;> simp only [Bool.false_eq_true, if_false, if_true] <;>
+  refine ⟨?_, ?_, ?_, ?_, ?_, ?_, ?_, ?_, ?_, ?_, ?_, ?_, ?_, ?_, ?_, ?_, ?_, ?_, ?_, ?_, ?_, ?_, ?_, ?_, ?_, ?_, ?_, ?_, ?_, ?_, ?_, ?_, ?_⟩ <;>
+  (first | omega | (split_ifs <;> omega))
+
+/-- the fill loop of `CacheArea`, row `iy` of the window -/
+theorem fillInts_in_range (w h xoff yoff xs ys iy : Int) (hw : 2 ≤ w ∧ w ≤ 2 ^ 30) (hh : 3 ≤ h ∧ h ≤ 2 ^ 30)
+    (hwin : 0 ≤ xoff ∧ xoff < w ∧ 0 < xs ∧ xs ≤ w ∧ -1 ≤ yoff ∧ 0 < ys ∧ yoff + ys ≤ h + 1)
+    (hy : yoff ≤ iy ∧ iy < yoff + ys) : ∀ x ∈ fillInts w h xoff yoff xs iy, IntRange x := by
+  simp only [fillInts, List.forall_mem_cons, List.not_mem_nil, IsEmpty.forall_iff, implies_true, and_true, IntRange, Int.min_def]
+  refine ⟨?_, ?_, ?_, ?_, ?_, ?_, ?_, ?_, ?_, ?_, ?_, ?_, ?_, ?_, ?_⟩ <;> (first | omega | (split_ifs <;> omega))
+
+/-- the cache inspectors -/
+theorem getterInts_in_range (w h xoff yoff xs ys : Int) (cubic : Bool) (hw : 2 ≤ w ∧ w ≤ 2 ^ 30) (hh : 3 ≤ h ∧ h ≤ 2 ^ 30)
+    (hwin : 0 ≤ xoff ∧ xoff < w ∧ 0 < xs ∧ xs ≤ w ∧ -1 ≤ yoff ∧ 0 < ys ∧ yoff + ys ≤ h + 1) :
+    ∀ x ∈ getterInts w xoff yoff xs ys cubic, IntRange x := by
+  simp only [getterInts, List.forall_mem_cons, List.not_mem_nil, IsEmpty.forall_iff, implies_true, and_true, IntRange]
+  have hm := Int.emod_nonneg (xoff + (if xs = w then 0 else if cubic = true then 1 else 0) + w / 2) (by omega : w ≠ 0)
+  have hm2 := Int.emod_lt_of_pos (xoff + (if xs = w then 0 else if cubic = true then 1 else 0) + w / 2) (by omega : 0 < w)
+  cases cubic <;> simp only [Bool.false_eq_true, if_false, if_true] at hm hm2 ⊢ <;>
+  refine ⟨?_, ?_, ?_, ?_, ?_, ?_, ?_, ?_, ?_, ?_, ?_, ?_⟩ <;> (first | omega | (split_ifs at hm hm2 ⊢ <;> omega))
+
+/-- **`accepted_int_arithmetic`**: for every raster shape the constructor accepts (`FileOK`: dimensions ≤ 2^30, repair f4ec5a8
+    of finding F73) every value of type `int` that the code computes stays in the range of `int`:
+    1. in `Geoid::height`, for every binary64 position that is not NaN after `LatFix` / `AngNormalize` — including the two
+       conversions `int(floor(fx))`, `int(floor(fy))`;
+    2. in `Geoid::rawval`, for every stencil argument of every cell of the raster and every cache window `CacheArea` can set;
+    3. in `Geoid::CacheArea`, for arbitrary binary64 limits that pass its finiteness test — the four conversions
+       `int(floor(·))`, the window arithmetic, the fill loop of every cached row, and the inspectors
+       `CacheWest/East/North/South` on the resulting window -/
+theorem accepted_int_arithmetic (f : File) (hf : FileOK f) (cubic : Bool) :
+    (∀ lat lon : F64, (MathF.latFix lat).isNaN = false → (MathF.angNormalize lon).isNaN = false →
+      ∀ x ∈ heightInts f.w f.h (fl (MathF.angNormalize lon * (F64.ofInt f.w / F64.ofInt Gen.MathC.td)))
+        (fl (F64.neg (MathF.latFix lat) * (F64.ofInt (f.h - 1) / F64.ofInt Gen.MathC.hd))), IntRange x) ∧
+    (∀ (so we no ea : F64) (xo yo xs ys : Int), cacheWindow f cubic so we no ea = .set xo yo xs ys →
+      ∀ ix iy : Int, 0 ≤ ix ∧ ix < f.w → 0 ≤ iy ∧ iy ≤ f.h - 2 → ∀ d ∈ stencilCubic ++ stencilBilinear,
+        ∀ x ∈ rawvalInts f.w f.h xo yo xs ys (ix + d.1) (iy + d.2), IntRange x) ∧
+    (∀ (so we no ea : F64) (xo yo xs ys : Int), cacheWindow f cubic so we no ea = .set xo yo xs ys →
+      (∀ x ∈ cacheAreaInts f.w f.h cubic (cacheFloors f so we no ea).1 (cacheFloors f so we no ea).2.1
+          (cacheFloors f so we no ea).2.2.1 (cacheFloors f so we no ea).2.2.2, IntRange x) ∧
+      (∀ iy : Int, yo ≤ iy ∧ iy < yo + ys → ∀ x ∈ fillInts f.w f.h xo yo xs iy, IntRange x) ∧
+      (∀ x ∈ getterInts f.w xo yo xs ys cubic, IntRange x)) := by
+  have hw : 2 ≤ f.w ∧ f.w ≤ 2 ^ 30 := ⟨hf.w2, hf.wmax⟩
+  have hh : 3 ≤ f.h ∧ f.h ≤ 2 ^ 30 := ⟨hf.h3, hf.hmax⟩
+  refine ⟨?_, ?_, ?_⟩
+  · intro lat lon hlat hlon
+    obtain ⟨b1, b2⟩ := heightFloors_facts f hf.w2 hf.wmax hf.h3 hf.hmax lat lon hlat hlon
+    exact heightInts_in_range f.w f.h _ _ hw hh b1 b2
+  · intro so we no ea xo yo xs ys hwin ix iy hx hy d hd
+    have hwin' := cacheWindow_ok f cubic hf.w2 hf.wev (by have := hf.wmax; omega) hf.h3 (by have := hf.hmax; omega) so we no ea xo yo xs ys hwin
+    have hd' : (-1 ≤ d.1 ∧ d.1 ≤ 2) ∧ (-1 ≤ d.2 ∧ d.2 ≤ 2) := by revert d; decide
+    exact rawvalInts_in_range f.w f.h xo yo xs ys _ _ hw hh hwin' (by omega) (by omega)
+  · intro so we no ea xo yo xs ys hwin
+    have hwin' := cacheWindow_ok f cubic hf.w2 hf.wev (by have := hf.wmax; omega) hf.h3 (by have := hf.hmax; omega) so we no ea xo yo xs ys hwin
+    obtain ⟨hok, _⟩ := cacheWindow_set_limits f cubic so we no ea xo yo xs ys hwin
+    obtain ⟨c1, c3, c2, c2', c4, c5, c6, c7⟩ := cacheFloors_facts f hf.w2 hf.wmax hf.h3 hf.hmax so we no ea hok
+    exact ⟨cacheAreaInts_in_range f.w f.h cubic _ _ _ _ hw hf.wev hh c1 c3 c2' c4 c5 c6 c7 c2,
+      fun iy hy => fillInts_in_range f.w f.h xo yo xs ys iy hw hh hwin' hy,
+      getterInts_in_range f.w f.h xo yo xs ys cubic hw hh hwin'⟩
+
 end GeoVerif.Props.C20
